@@ -22,8 +22,10 @@ PROP = "C16"
 PROPS_FILE = "Props/C16.v"
 PINS = {
     "C16_decides": "match typed e t d v with | Some x => tde f t d (bs ++ r) = Ok (x, r) | None => exists err, tde f t d (bs ++ r) = Err err end",
-    "C16_accepts": "wf_ty t = true -> wf true v = true -> conforms t v = true -> serialize e v = Ok bs -> exists x, tde_top t bs = Ok x /\\ typed e t 0 v = Some x",
+    "C16_accepts": "wf_ty t = true -> wf true v = true -> conforms t v = true -> serialize e v = Ok bs -> exists x bs', tde_top t bs = Ok x /\\ tser_top t x = Ok bs' /\\ de_as_value true bs' = Ok (norm t v)",
+    "C16_fallback_preserves": "wf_ty t = true -> wf true v = true -> conforms t v = true -> serialize e v = Ok bs -> exists x bs', tde_top t bs = Ok x /\\ typed e t 0 v = Some x /\\ tser_top t x = Ok bs' /\\ tde_top t bs' = Ok x",
     "C16_rejects": "wf_ty t = true -> wf true v = true -> conforms t v = false -> serialize e v = Ok bs -> exists err, tde_top t bs = Err err",
+    "C16_total": "forall t b, tde_top t b <> Err Fuel",
     "C16_missing_required": "In (id, (true, ft)) fs -> has_id id l = false -> conforms (TStruct fs fb) (VStruct l) = false",
     "C16_wrongly_typed_field": "find_field fs id = Some (true, ft) -> In (id, x) l -> conforms ft x = false -> conforms (TStruct fs fb) (VStruct l) = false",
     "C16_unknown_variant": "find_variant vs id = None -> conforms (TEnum vs false) (VEnum id x) = false",
@@ -32,7 +34,7 @@ PINS = {
     "C16_doc_attr_fixed": "forall d, rust_string_literal (emit_doc_attr_fixed d) = Some d",
 }
 SIZES = {
-    "quick": dict(main=12, pairs=3, cases=8000, shards=4, batch=40),
+    "quick": dict(main=12, pairs=3, cases=6000, shards=4, batch=40),
     "thorough": dict(main=200, pairs=16, cases=400000, shards=16, batch=25),
 }
 CLASS_TEXT = {
@@ -352,7 +354,8 @@ def compile_part(o, tier, seed, stats):
             if s.label == "pair":
                 return ["plain"]
             if tier == "quick":
-                return ["plain", "intro", "mac"]
+                i = int(re.sub(r"\D", "", s.name) or 0)
+                return ["plain", "intro"] + (["mac"] if i % 2 == 0 else [])
             i = int(re.sub(r"\D", "", s.name) or 0)
             return ["plain", "intro"] + (["mac"] if i % 4 == 0 else []) + (["macplain"] if i % 16 == 1 else [])
         # imported schemas of earlier batches must be present as sibling modules
@@ -566,9 +569,10 @@ def run(tier, seed):
         o.obligation_broken("Props/C16.v", "theorem file missing")
     o.coverage["trusted_base"] = o.assumptions
     o.coverage["explanation"] = (
-        "partial: compilation is decided by rustc on a corpus; the derive wire contract is proved on the model (see "
-        "design/C16.md for the exact theorem list and what is _partial) and tied to the real generated types by "
-        "differential execution")
+        "partial: compilation is decided by rustc on a corpus; the derive wire contract (accept + re-encode to an "
+        "equivalent value, reject, byte-for-byte cycle through fallbacks, totality) is proved on the model and tied to the "
+        "real generated types by differential execution; the old/new clause across two different types is monitored and "
+        "compared, not proved (design/C16.md)")
     stats = {}
     if build_tools(o):
         built, by_name = compile_part(o, tier, seed, stats)
@@ -578,7 +582,9 @@ def run(tier, seed):
             o.obligation_broken("no corpus crate with a runner could be built", "")
         for a, _, _, _ in built:
             a.remove()
-        cc.cleanup(keep_target=os.environ.get("C16_CLEAN") != "1")
+        # the case directories are kept only when something has to be diagnosed
+        cc.cleanup(keep_target=os.environ.get("C16_CLEAN") != "1",
+                   keep_work=bool(o.broken or any(w.startswith("wire-") for w, _ in o.violations)))
     o.coverage.update({k: v for k, v in stats.items() if k in ("evaluations", "distinct_nontrivial", "samples",
                                                               "input_distribution", "monitor_classes",
                                                               "monitor_failures", "disagreements",
